@@ -12,8 +12,8 @@ EXPLANATION = (
     "TlsStream iff ssl, be a WebSocketFramed iff ws, contain QuicStream iff quic. W2 the two forward pumps of every relay function are instantiated "
     "from one side's stream into the *other* side's sink. W3 the server dials the address bound in the ConnectTcp pattern (through to_socket_addr) "
     "and hands the payload bound in the same pattern to the relay as the first item. W4 a server codec never returns need-more on a path where its "
-    "inner (authenticated) decode already produced plaintext: decoded bytes are not swallowed. W5 re-entrancy of need-more (C04 R4a/R4e re-evaluated): "
-    "no consumed-then-wait, no replay-cache insert on a path that still answers need-more.")
+    "inner (authenticated) decode already produced plaintext: decoded bytes are not swallowed. W5 re-entrancy of need-more (C04 R4a/R4e/R4f re-evaluated): "
+    "no consumed-then-wait, no replay-cache insert on a path that still answers need-more, no need-more after taking bytes without storing progress.")
 ASSUMPTIONS = ["byte equality over all traffic scripts and interleavings is value/schedule-level and is not decided; these are necessary wiring conditions"]
 
 
@@ -246,7 +246,7 @@ def w5(ctx):
     c04.run(sub)
     n = 0
     for o in sub.obs:
-        if o.rule in ("R4a", "R4e"):
+        if o.rule in ("R4a", "R4e", "R4f"):
             n += 1
             parts = o.key.split("|")
             ctx.ob("W5", parts[1], f"{o.rule}:{parts[2]}", o.where, o.ok, o.detail)
